@@ -219,7 +219,9 @@ func (c *Persistent) setID(id string) (err error) {
 
 	var subnet netip.Prefix
 	if subnet, err = netip.ParsePrefix(id); err == nil {
-		c.Subnets = append(c.Subnets, subnet)
+		// Store the network itself, so that different spellings of the same
+		// subnet, e.g. 192.168.1.1/24 and 192.168.1.0/24, are one identifier.
+		c.Subnets = append(c.Subnets, subnet.Masked())
 
 		return nil
 	}
